@@ -223,6 +223,15 @@ def c09(res, ctx):
         # real-time interruptions
         cases.append('\t'.join(['position fen ' + p, 'go infinite', '@sleep %d' % rng.choice([0, 1, 5, 20]), 'stop', '@fen', 'go depth 1', '@fen'])); meta.append((p, fresh_score))
         cases.append('\t'.join(['position fen ' + p, 'go movetime %d' % rng.choice([1, 2, 5, 10]), '@fen', 'go depth 1', '@fen'])); meta.append((p, fresh_score))
+        # commands that ARRIVE DURING the search (seen at the next poll; polling period 1): debug, ucinewgame, a position and
+        # a go (both ignored while searching), ponderhit, isready -- then stop; and quit in the middle of a search
+        if rng.random() < 0.6:
+            other = rng.choice(ps)
+            during = ['@during debug on', '@during ucinewgame', '@during position fen ' + other, '@during go depth 1', '@during ponderhit', '@during isready', '@during debug off', '@during position startpos moves e2e4']
+            rng.shuffle(during)
+            cases.append('\t'.join(['position fen ' + p, '@poll 1', 'go infinite', '@sleep %d' % rng.choice([1, 4])] + during[:rng.randint(1, 8)] + ['@sleep 2', 'stop', '@fen', '@poll 100000', 'go depth 1', '@fen'])); meta.append((p, fresh_score))
+            cases.append('\t'.join(['position fen ' + p, '@poll 1', 'go infinite', '@sleep %d' % rng.choice([1, 4]), '@during quit'])); meta.append((p, fresh_score))
+            cases.append('\t'.join(['position fen ' + p, 'go infinite', '@sleep %d' % rng.choice([1, 20]), '@during quit'])); meta.append((p, fresh_score))
     # time-limited searches are deterministic up to WHERE they are cut: whatever depth the last reported iteration has,
     # its score and the announced move must be those of a fresh `go depth d` (an iteration that was cut must not be reported)
     big = [p for p in V.gen_positions('games', res.seed + 1234, 40 if q else 600) if sum(1 for ch in p.split(' ')[0] if ch.isalpha()) >= 14]
@@ -265,6 +274,7 @@ def c09(res, ctx):
         ss, _ = searches(lines)
         fens = [l[5:] for l in lines if l.startswith('@fen ')]
         if '@timeout' in lines: bad = 'engine did not answer'
+        elif '@during quit' in c and '@quit-done' not in lines: bad = 'quit during a search did not end the engine'
         elif len(ss) != ngo: bad = 'expected %d bestmove answers, got %d' % (ngo, len(ss))
         elif any(f != p for f in fens): bad = 'the position held by the engine changed: %s' % [f for f in fens if f != p][0]
         else:
